@@ -74,7 +74,19 @@ pub struct Host {
     /// the n-th mark/choose call traps (fault injection); counted over mark+choose only
     pub trap_at: Option<usize>,
     pub host_calls: usize,
+    /// virtual control-flow events of the ORIGINAL program (recorded only when requested):
+    /// (number of trace events recorded before it, kind, local function position, instruction index)
+    pub virt: Option<Vec<(usize, u8, u32, u32)>>,
 }
+
+/// control entered the body opened at this instruction (block / loop incl. every re-entry / then-arm at
+/// the `if` / else-arm at the `else`)
+pub const V_ENTER: u8 = 0;
+/// the body fell through to this `else` / `end`
+pub const V_FALL: u8 = 1;
+/// control reached the instruction after the construct closed by this `end` (fall-through, a branch
+/// to its label, a caught exception landing there, or an else-less `if` whose condition was false)
+pub const V_AFTER: u8 = 2;
 
 pub struct Instance<'a> {
     pub m: &'a ModuleSpec,
@@ -209,8 +221,16 @@ impl<'a> Instance<'a> {
                 tape_pos: 0,
                 trap_at,
                 host_calls: 0,
+                virt: None,
             },
         })
+    }
+
+    fn virt(&mut self, kind: u8, li: usize, pc: usize) {
+        let n = self.host.trace.len();
+        if let Some(v) = &mut self.host.virt {
+            v.push((n, kind, li as u32, pc as u32));
+        }
     }
 
     fn sig(&self, ty: u32) -> Result<(Vec<VT>, Vec<VT>), String> {
@@ -309,6 +329,9 @@ impl<'a> Instance<'a> {
             arity: results.len(),
         }];
         let mut pc = 0usize;
+        // the next `end` executed is reached by a jump (else-less `if` with a false condition, end of a
+        // then-arm), not by its body falling through
+        let mut skip_fall = false;
         macro_rules! pop {
             () => {
                 stack.pop().ok_or_else(|| Stop::Harness("stack underflow".into()))?
@@ -374,8 +397,9 @@ impl<'a> Instance<'a> {
                 }
                 Ins::Block(bt) | Ins::Loop(bt) => {
                     let (p, r) = self.bt_arity(*bt).map_err(Stop::Harness)?;
-                    let c = self.ctrl[li].iter().find(|c| c.0 == pc).ok_or_else(|| Stop::Harness("ctrl".into()))?;
+                    let c = *self.ctrl[li].iter().find(|c| c.0 == pc).ok_or_else(|| Stop::Harness("ctrl".into()))?;
                     let is_loop = matches!(ins, Ins::Loop(_));
+                    self.virt(V_ENTER, li, pc);
                     labels.push(Label {
                         is_loop,
                         is_try: false,
@@ -399,18 +423,26 @@ impl<'a> Instance<'a> {
                     });
                     if cnd == 0 {
                         match c.1 {
-                            Some(e) => pc = e, // continue after the else
+                            Some(e) => {
+                                self.virt(V_ENTER, li, e);
+                                pc = e // continue after the else
+                            }
                             None => {
-                                // no else: skip to end (which pops the label)
+                                // no else: skip to end (which pops the label); not a fall-through
+                                skip_fall = true;
                                 pc = c.2;
                                 continue;
                             }
                         }
+                    } else {
+                        self.virt(V_ENTER, li, pc);
                     }
                 }
                 Ins::Else => {
                     // reached the end of the then-arm: jump to the end
                     let l = *labels.last().ok_or_else(|| Stop::Harness("else label".into()))?;
+                    self.virt(V_FALL, li, pc);
+                    skip_fall = true; // the `end` is reached from the then-arm, not by the else-arm falling through
                     pc = l.end;
                     continue;
                 }
@@ -418,6 +450,11 @@ impl<'a> Instance<'a> {
                     if labels.len() == 1 {
                         break;
                     }
+                    if !skip_fall {
+                        self.virt(V_FALL, li, pc);
+                    }
+                    skip_fall = false;
+                    self.virt(V_AFTER, li, pc);
                     labels.pop();
                 }
                 Ins::Br(d) => branch_to = Some(*d),
@@ -751,9 +788,11 @@ impl<'a> Instance<'a> {
                     break;
                 }
                 if target.is_loop {
+                    self.virt(V_ENTER, li, target.start);
                     labels.truncate(labels.len() - d);
                     pc = target.start + 1;
                 } else {
+                    self.virt(V_AFTER, li, target.end);
                     labels.truncate(labels.len() - 1 - d);
                     pc = target.end + 1;
                 }
@@ -769,6 +808,7 @@ impl<'a> Instance<'a> {
 }
 
 pub struct RunOut {
+    pub virt: Vec<(usize, u8, u32, u32)>,
     pub result: Result<Vec<Val>, Stop>,
     pub trace: Vec<Ev>,
     pub globals: Vec<Val>,
@@ -778,7 +818,15 @@ pub struct RunOut {
 
 /// Instantiate and call the exported function `export` with `args`.
 pub fn run_export(m: &ModuleSpec, export: &str, args: Vec<Val>, tape: Vec<i32>, trap_at: Option<usize>, cap: u64) -> Result<RunOut, String> {
+    run_export_virt(m, export, args, tape, trap_at, cap, false)
+}
+
+/// `virt` = also record the virtual control-flow events (`V_*`) of the executed program
+pub fn run_export_virt(m: &ModuleSpec, export: &str, args: Vec<Val>, tape: Vec<i32>, trap_at: Option<usize>, cap: u64, virt: bool) -> Result<RunOut, String> {
     let mut inst = Instance::new(m, tape, trap_at, cap)?;
+    if virt {
+        inst.host.virt = Some(vec![]);
+    }
     let f = m
         .exports
         .iter()
@@ -796,6 +844,7 @@ pub fn run_export(m: &ModuleSpec, export: &str, args: Vec<Val>, tape: Vec<i32>, 
     }
     Ok(RunOut {
         result,
+        virt: inst.host.virt.take().unwrap_or_default(),
         trace: inst.host.trace,
         globals: inst.globals,
         mem_digest: h,
